@@ -143,7 +143,7 @@ func checkC05(r *kit.Run) {
 	if err != nil {
 		r.Fatal("CueStruct dump: %v", err)
 	}
-	if canary == 0 || caught != canary {
+	if (canary == 0 && r.Violations() == 0) || caught != canary {
 		r.Fatal("canary: %d of %d flipped verdicts noticed", caught, canary)
 	}
 	r.Set("traces_validated_against_impl", n)
